@@ -383,6 +383,7 @@ def check_C01(tier: str, v: Verdict):
                      "metric/threshold x decision metric/threshold x handler; distinct by (arrays, config); non-trivial = both sides non-empty")
     _sample(v, recs)
     validate_traces(v, "Trace_Eval", EVAL_C01, recs, site_eval, what_fn=what_eval)
+    large_scale(v, tier, ["T_Completes", "T_Counts", "T_Tp", "T_FpFn", "T_Lists", "T_Ambiguous", "T_Rq"], 101)
     if tier == "thorough":
         good = next(r for r in recs if r["out"] == "ok" and r["res"]["tp"] >= 1)
         def corrupt(r):
@@ -412,6 +413,7 @@ def check_C02(tier: str, v: Verdict):
     v.cov["directly_constructed_results"] = len(direct)
     from .extras import extra_lazy_result
     extra_lazy_result(v, tier)
+    large_scale(v, tier, ["T_Counts", "T_Tp", "T_FpFn", "T_BookCounts", "T_BookLists", "T_BookDecision", "T_Rq"], 102)
     _count_cov(v, recs, _eval_key, lambda r: r["out"] == "ok" and r["res"]["npred"] + r["res"]["nref"] > 0)
     v.cov["rule"] = ("evaluate() over label-map pairs x input types x matchers (incl. many-to-one, merge) x decision metric/threshold, "
                      "the README configuration, and directly constructed PanopticaResult objects; distinct by (arrays, config); "
@@ -635,3 +637,66 @@ def replay_pipeline_behaviours(v: Verdict, cfg_file: str, shape, num: int, sd: i
     v.cov["spec_behaviours_replayed"] = v.cov.get("spec_behaviours_replayed", 0) + followed
     v.cov["spec_behaviours_other_tie_order"] = v.cov.get("spec_behaviours_other_tie_order", 0) + tie_div
     return recs
+
+
+# --------------------------------------------------------------------------------------
+# large-scale runs on the contingency table
+# --------------------------------------------------------------------------------------
+CT_CLAUSES = ["T_Completes", "T_Counts", "T_Tp", "T_FpFn", "T_Lists", "T_Ambiguous", "T_Rq", "T_BookCounts", "T_BookLists", "T_BookDecision"]
+
+
+def gen_ct_records(rng, n_many, n_big):
+    from .rec_pipeline import rec_evaluate_ct
+    recs = []
+
+    def cfg_for(inp):
+        mm = rng.choice(["IOU", "DSC"])
+        return default_cfg(input=inp, matcher=rng.choice(["naive", "naive", "m2o", "merge"]), mm=mm, thr=list(rng.choice(gen.THRESHOLDS)),
+                           dm=rng.choice(["NONE", "IOU", "DSC"]), dthr=list(rng.choice(gen.THRESHOLDS)), im=["DSC", "IOU", "RVD"], gm=["DSC"])
+    for _ in range(n_many):
+        # many small instances: more than 255 (and label values beyond 2^8 / 2^16)
+        k = rng.choice([120, 260, 300])
+        shape = (k * 2 + 4, 6)
+        ref = np.zeros(shape, dtype=np.int64)
+        pred = np.zeros(shape, dtype=np.int64)
+        labs = rng.sample(range(1, 70000), k) if rng.random() < 0.5 else list(range(1, k + 1))
+        for i, lab in enumerate(labs):
+            ref[2 * i, 0:rng.randint(2, 6)] = lab
+            x = rng.random()
+            if x < 0.7:
+                pred[2 * i, rng.randint(0, 2):rng.randint(3, 6)] = lab if rng.random() < 0.5 else labs[(i * 7 + 1) % k] + 70000
+            elif x < 0.8:
+                pred[2 * i + 1, 0:3] = lab + 140000
+        inp = rng.choice(["UNM", "MAT"])
+        recs.append(rec_evaluate_ct(pred, ref, cfg_for(inp), dtype=np.uint32, meta={"gen": f"many-instances-{k}"}))
+    for _ in range(n_big):
+        # few instances of more than 2^16 voxels each
+        shape = (300, 700)
+        ref = np.zeros(shape, dtype=np.int64)
+        pred = np.zeros(shape, dtype=np.int64)
+        for i in range(rng.randint(1, 3)):
+            r0 = i * 100
+            ref[r0:r0 + rng.randint(94, 99), 0:rng.randint(690, 700)] = i + 1
+            a, b = rng.randint(0, 8), rng.randint(0, 40)
+            pred[r0 + a:r0 + 96, b:700 - rng.randint(0, 30)] = (i + 1) if rng.random() < 0.6 else i + 11
+            if rng.random() < 0.4:
+                pred[r0 + 50:r0 + 96, 300:700][pred[r0 + 50:r0 + 96, 300:700] != 0] = i + 21     # split into two fragments
+        inp = rng.choice(["UNM", "MAT"])
+        recs.append(rec_evaluate_ct(pred, ref, cfg_for(inp), dtype=rng.choice([np.uint8, np.uint16, np.uint32]), meta={"gen": "big-instances"}))
+    return recs
+
+
+def large_scale(v: Verdict, tier: str, clauses, sd: int):
+    rng = random.Random(seed() * 7919 + sd)
+    recs = gen_ct_records(rng, 6 if tier == "quick" else 60, 6 if tier == "quick" else 60)
+    n = validate_traces(v, "Trace_EvalCT", clauses, recs, lambda r, c: dict(site_eval_ct(r)), per_trace_states=3,
+                        what_fn=lambda r, c: f"large-scale {r['meta'].get('gen')} shape={r['meta']['shape']} n_ref={r['meta']['n_ref']} n_pred={r['meta']['n_pred']} "
+                                             f"max_count={r['meta']['max_count']} {r['meta'].get('exception', '')[:100]}")
+    v.cov["large_scale_runs"] = v.cov.get("large_scale_runs", 0) + n
+    v.cov["evaluations"] += len(recs)
+
+
+def site_eval_ct(rec):
+    c = rec["cfg"]
+    return {"input": c["input"], "matcher": c["matcher"], "mm": c["mm"], "dm": c["dm"], "dtype": rec["meta"].get("dtype"), "out": rec["out"],
+            "gen": rec["meta"].get("gen", ""), "exc": rec["meta"].get("exception", "").split(":")[0], "scale": "contingency-table"}
